@@ -345,3 +345,12 @@ Proof.
   exists wit_schema, wit_doc. split; [vm_compute; reflexivity |].
   intros H. apply check_doc_iff in H. vm_compute in H. discriminate.
 Qed.
+
+Theorem conforming_not_rejected : forall (bnm : bool) (tbl : schema) (doc : dom),
+  ConformsFull tbl doc -> check_doc bnm tbl doc = None.
+Proof.
+  intros bnm tbl doc H. destruct bnm.
+  - apply (check_doc_iff true). exact H.
+  - destruct (check_doc false tbl doc) eqn:E; [| reflexivity].
+    exfalso. exact (exact_name_never_rejects_conforming tbl doc e E H).
+Qed.
